@@ -330,7 +330,7 @@ def main():
         if r.get("kind") != "case":
             print(json.dumps(r, indent=1)[:4000])
             sys.exit(0)
-        if r.get("ckind") in ("enum", "chan"):      # USB layer cases (tools/usbenum.py)
+        if r.get("ckind") in ("enum", "chan") or "end to end" in (r.get("family") or ""):   # USB layer (tools/usbenum.py)
             import usbenum
             usbenum.replay(ck, r)
         from vplib import Case
@@ -365,4 +365,6 @@ def main():
     # over a scripted fake libusb (rust/h_usb) vs model/UsbChannel.v, see tools/usbenum.py
     import usbenum
     usbenum.run_chan(ck)
+    usbenum.run_ctlreal(ck, [cases[i] for i in both + only], [impl[i] for i in both + only], predicate, nontrivial)
+    usbenum.run_ctlreal(ck, sess, impl_s, predicate_session, lambda c, out: True, label="sessions end to end")
     ck.finish()
